@@ -360,8 +360,28 @@ func genGE(cfg *config, r *rng, i int, s *sink) string {
 		if r.bool() {
 			side = -90
 		}
+		antimeridian := kind == "onl" && r.chance(1, 12)
+		if antimeridian {
+			// a start/finish line at the 180th meridian is a line like any other
+			shift := pick(r, []float64{180, -180, 179.99995, -179.9999}) - lon
+			lon += shift
+			lon2 += shift
+			s.count("ge.line.antimeridian")
+		}
 		bl, bo := offsetPoint(lat, lon, bearing, along, radius)
 		pl, po := offsetPoint(bl, bo, bearing+side, off, radius)
+		if antimeridian {
+			wrap := func(x float64) float64 {
+				for x > 180 {
+					x -= 360
+				}
+				for x < -180 {
+					x += 360
+				}
+				return x
+			}
+			lon, lon2, po = wrap(lon), wrap(lon2), wrap(po)
+		}
 		dist := gcSegDistLL(pl, po, lat, lon, lat2, lon2, radius)
 		if kind == "dtl" {
 			return "dtl " + hexFloats(radius, pl, po, lat, lon, lat2, lon2, dist)
